@@ -116,6 +116,9 @@ impl<'a> Ev<'a> {
         }
         self.guards.truncate(g0);
         self.env.pop();
+        if diverges_block(b) {
+            return json!({"k":"never"});
+        }
         tail
     }
 
